@@ -112,11 +112,20 @@ class C13(TalCheck):
                                  f"expected {[(x['type'], x['args']) for x in me_]}"})
         else:
             for x, y in zip(re_, me_):
-                if not y["same_function"] or y["site"] is None:
+                if y["site"] is None:
                     continue
                 cover.add("error-position-checked")
                 units = [(o["line"], o["col"])
                          for o in self._units(occ, y["site"], y.get("oid"))]
+                if not y["same_function"]:
+                    # the failure came out of a macro call or slot content:
+                    # the failing expression itself, or one of the
+                    # use-macro expressions it was reached through - but a
+                    # position
+                    cover.add("error-position-across-functions")
+                    units += [(o["line"], o["col"]) for o in occ
+                              if o.get("kind") == "use_macro" and
+                              o.get("eid") in y.get("use_stack", ())]
                 if (x["lineno"], x["offset"]) not in units:
                     vs.append({
                         "kind": "error-position", "sig": "error-position",
